@@ -331,6 +331,22 @@ def main():
         if impl != model:
             stats['lex_mismatch'] += 1
             chk.disagreement('lex.tokens', {'text': text[:200]}, str(impl)[:200], str(model)[:200])
+    # ---- 5. tie: the parser model ParseTok on a sample of the same re-laid-out texts — model and
+    # real parser must compile each layout to the same program (or reject it with the same messages)
+    import parsetok_check as ptc
+    from bardolph.parser.parse import Parser
+    pt_texts = [t for t in lex_texts if not ptc.outside_lexer_model(t)]
+    pt_texts = rng.sample(pt_texts, min(len(pt_texts), 3000 if chk.thorough else 500))
+    pt_answers = ptc.ask_parallel([('parse.text', [t]) for t in pt_texts])
+    chk.driver.lines += len(pt_texts)
+    stats['parse_text_requests'] = len(pt_texts)
+    stats['parse_text_mismatch'] = 0
+    for text, a in zip(pt_texts, pt_answers):
+        im = ptc.impl_outcome(Parser, text)
+        mo = ptc.model_outcome(a)
+        if not ptc.same(im, mo):
+            stats['parse_text_mismatch'] += 1
+            chk.disagreement('parse.text', {'text': text[:300]}, ptc.show(im)[:400], ptc.show(mo)[:400])
     chk.coverage['distribution'] = stats
     chk.coverage['rule'] = (
         'generated scripts re-laid-out four ways (random spaces/tabs/line breaks/comments; no '
